@@ -78,3 +78,12 @@ Theorem C03_nth : forall fuel p h m b blen nxt items e k,
     end.
 Proof. exact tagiter_nth_run. Qed.
 Print Assumptions C03_nth.
+
+(* an iterator whose next() panicked and was caught lives on with the offset next() left behind (tagiter_step); from EVERY
+   8-aligned offset - inside the buffer, at its end, or beyond it - next() is a value or a controlled panic, never a read
+   outside (fault), and again leaves an 8-aligned offset: any history of next() calls, panics included, is safe *)
+Theorem C03_after_panic : forall p h m b blen nxt,
+  iter_ok h m b blen -> nxt mod 8 = 0 ->
+  is_fault (fst (tagiter_step p h m b blen nxt)) = false /\ snd (tagiter_step p h m b blen nxt) mod 8 = 0.
+Proof. exact tagiter_step_safe. Qed.
+Print Assumptions C03_after_panic.
